@@ -274,6 +274,9 @@ func CheckGraph(g *Graph, escaped map[string][]byte, inScope func(gno.PkgID) boo
 					if r := g.Objs[referrers[id][0]]; r != nil && r.ID.PkgID == o.ID.PkgID {
 						// the recorded (old) owner has since been deleted: same stale-owner state as below
 						clause = "owner-stale-after-sole-reference-moved"
+					} else if r != nil {
+						// the same with the (single) referrer in another realm than the object
+						clause = "owner-stale-after-sole-reference-moved:cross-realm"
 					}
 				}
 				add(clause, id, "owner %s is not persisted; referrers %v; kind %s", o.Info.OwnerID, head(referrers[id], 4), o.Kind)
@@ -290,6 +293,8 @@ func CheckGraph(g *Graph, escaped map[string][]byte, inScope func(gno.PkgID) boo
 					if indeg[id] == 1 && len(referrers[id]) == 1 {
 						if r := g.Objs[referrers[id][0]]; r != nil && r.ID.PkgID == o.ID.PkgID {
 							clause = "owner-stale-after-sole-reference-moved"
+						} else if r != nil {
+							clause = "owner-stale-after-sole-reference-moved:cross-realm"
 						}
 					}
 					add(clause, id, "owner %s (%s) holds no reference to it; referrers %v; kind %s", o.Info.OwnerID, ow.Kind, head(referrers[id], 4), o.Kind)
